@@ -67,6 +67,21 @@ def findings():
           "is only detected when beta_1 is exactly 0; otherwise rounding noise is normalised into further columns and T gains Ritz values that are not eigenvalues of A",
           reltol, "lanczos(SelfAdjoint(Dense([[2,1,0],[1,3,1],[0,1,4]])), first eigenvector from numpy eigh, max_iters=3)")
 
+    def startdtype():
+        S = np.array([[2., 1., 0.], [1., 3., 1.], [0., 1., 4.]])
+        b = np.array([1 + 2j, 2 - 1j, 3j])
+        import warnings
+        with warnings.catch_warnings():
+            warnings.simplefilter("ignore")
+            Q, T, _ = lanczos(cola.SelfAdjoint(ops.Dense(S)), b, max_iters=2)
+        Q = np.asarray(Q.to_dense())
+        err = float(np.abs(Q[:, 0] - b / np.linalg.norm(b)).max())
+        return err > 1e-8, f"Q dtype {Q.dtype}; max|Q[:,0] - v/||v||| = {err:.3g}"
+    probe("lanczos_start_dtype_cast",
+          "lanczos allocates its basis in the operator's dtype: a complex start vector on a real symmetric operator loses its imaginary part "
+          "(a float64 start vector on a float32 operator is rounded to float32), so the first column is not v/||v|| and the Krylov space is that of another vector",
+          startdtype, "lanczos(SelfAdjoint(Dense([[2,1,0],[1,3,1],[0,1,4]])), [1+2j,2-1j,3j], max_iters=2)")
+
     def batch():
         S = np.diag([1., 2., 3., 4., 5.]) + 0.5 * (np.eye(5, k=1) + np.eye(5, k=-1))
         w, U = np.linalg.eigh(S)
@@ -140,6 +155,12 @@ def run(ctx):
             c["v"] = L.enc(L.dec(c["v"]).real); c["grades"] = [1] * len(c["grades"]); c["start"] = "identity_op"
             if c["tol"] >= 1e-9:
                 cases.append(c)
+    # start vector of a wider dtype than the operator (complex on real, float64 on float32): region of lanczos_start_dtype_cast
+    mixedt = [L.gen_mixed_dtype(ctx.rng, nmax=min(nmax, 10)) for _ in range(ctx.budget(40, 240))]
+    if "lanczos_start_dtype_cast" in present:
+        avoided["mixed_dtype"] = len(mixedt)
+        mixedt = []
+    cases += mixedt
     # mixed batches: one element exhausts its Krylov space early, the others are generic (either order), max_iters < n.
     # Region of lanczos_batch_shared_stop: used whenever the probe says the flag is gone
     mixed = [L.gen_mixed_batch(ctx.rng, nmax=min(nmax, 10)) for _ in range(ctx.budget(40, 240))]
